@@ -4,7 +4,7 @@
    Names: eager = how the transport reports the end of the body (see Model.v read_slice); it only
    matters for an unterminated last line of exactly B bytes.  B = len of the bufio buffer =
    max(maxDocumentSize, 16).  classify = the JSON decoder as oracle. *)
-From C10 Require Import Model Spec Proofs ProofsFraming ProofsTime ModelV0.
+From C10 Require Import Model ModelMeta Spec Proofs ProofsFraming ProofsTime ProofsESTime ProofsMeta ModelV0.
 
 (* For EVERY body, buffer size and transport: the request handled by the buffered reader and the
    processing loop (the model the correspondence run executes) gives exactly the line-level
@@ -59,7 +59,45 @@ Theorem C10_payload_codec :
 Proof. exact payload_codec. Qed.
 Print Assumptions C10_payload_codec.
 
+(* parseESTime (as modelled, after repair 480fedc) accepts EXACTLY the strings
+   YYYY-MM-DD hh:mm:ss[.f+] (es_form, Spec.v: decimal digits, month 1..12, day 1..31, hour <= 23,
+   minute/second <= 59, any number >= 1 of fraction digits of which those beyond the ninth are
+   dropped) and returns the instant time.Date gives for these fields. *)
+Theorem C10_estime_parse : forall t inst, parse_es t = Some inst <-> es_form t inst.
+Proof. exact estime_parse. Qed.
+Print Assumptions C10_estime_parse.
+
+(* MetaData.UnmarshalBinary (MarshalBinaryTo m) = m for every meta within the field widths
+   (64-bit ID halves, 32-bit size, token count and key/value lengths); bytes after it are ignored *)
+Theorem C10_meta_codec : forall m rest, meta_ok m -> unmarshal_meta (marshal_meta m ++ rest) = UOk m.
+Proof. exact meta_codec. Qed.
+Print Assumptions C10_meta_codec.
+
+(* the metas payload built by marshalAppendMeta per meta decodes to the metas *)
+Theorem C10_metas_payload_codec : forall ms f,
+  Forall meta_ok ms -> Forall (fun m => (N.of_nat (length (marshal_meta m)) < 2 ^ 32)%N) ms ->
+  length ms < f -> decode_metas f (encode_metas ms) = UOk ms.
+Proof. exact metas_payload_codec. Qed.
+Print Assumptions C10_metas_payload_codec.
+
 (* ---- non-vacuity / documentation of the repaired defects ---- *)
+
+Example C10_estime_form_nonvacuous :
+  es_form [50;48;50;54;45;48;57;45;50;53;32;49;50;58;48;48;58;51;48;46;49;50;51;52;53;54;55;56;57;57]%N
+          1790337630123456789%Z.
+Proof.
+  exists 2%N, 0%N, 2%N, 6%N, 0%N, 9%N, 2%N, 5%N, 1%N, 2%N, 0%N, 0%N, 3%N, 0%N, [1;2;3;4;5;6;7;8;9;9]%N.
+  repeat split; try (repeat constructor; fail); vm_compute; congruence.
+Qed.
+
+Example C10_meta_nonvacuous :
+  let m := {| m_mid := 1790337600000; m_rid := 18446744073709551615; m_size := 7;
+              m_tokens := [([95;97;108;108;95]%N, []); ([107]%N, [118;49]%N)] |} in
+  meta_ok m /\ unmarshal_meta (marshal_meta m) = UOk m /\ firstn 4 (marshal_meta m) = [124; 63; 1; 0]%N.
+Proof.
+  repeat split; try (vm_compute; reflexivity); try (repeat constructor; vm_compute; reflexivity).
+Qed.
+
 
 (* a body with CR LF, a blank line, an over-size line, a non-object line: two documents stored *)
 Example C10_nonvacuous :
